@@ -24,7 +24,7 @@ def model(c, runs):
                  cfg=cfg_text(constants=dict(BASE, OpsA={"send", "send_err", "recv"}, UsersB={"b1", "b2"}, OpsB={"recv", "recv_err", "send"},
                                              W0=2, Thresh=1, ReadSizes={1, 3}), invariants=INVS)),
             dict(name="simulate (spec -> code)", module="Channel_Gen", simulate=True, expect="behaviours",
-                 cfg=cfg_text(spec="GSpec", constants=dict(GEN, HoldBack=dc.holdback()), invariants=["GenEmit"]),
+                 cfg=cfg_text(spec="GSpec", constants=dict(GEN, **dc.gen_variant()), invariants=["GenEmit"]),
                  kw=dict(workers=1, simulate="num=%d" % (40 if c.quick else 500), extra=["-depth", "200", "-seed", str(c.seed + 1)]))]
     small = dict(BASE, OpsA={"sendall", "send_err"}, OpsB={"recv", "recv_err"}, SendN=4)
     for mut, inv in (("no_decrement", "WindowRespected"), ("ignore_maxpkt", "PacketBound"), ("over_ack", "NoOverGrant")):
@@ -41,7 +41,7 @@ def model(c, runs):
                                                          PeerMax=p, Thresh=t, SendN=w + 1, ReadSizes={2}, MaxCalls=1,
                                                          Modes={"block", "timed", "nonblock"}), invariants=INVS)))
     res = dc.mc_batch(c, jobs)
-    gen = dict(GEN, HoldBack=dc.holdback())
+    gen = dict(GEN, **dc.gen_variant())
     behs = res["simulate (spec -> code)"].printed("BEH")
     if not behs:
         raise Machinery("Channel_Gen produced no behaviour\n%s" % res["simulate (spec -> code)"].out[-2000:])
